@@ -10,7 +10,7 @@ From Gosk Require Import Base.Bytes Model.Ast Model.Asm Spec.X86Len Check.C01 Le
 Import ListNotations.
 Local Open Scope Z_scope.
 
-Theorem C18_reg_imm_shortest : forall c, In c sweep_ri -> ok18 c = true.
+Theorem C18_reg_imm_shortest : forall c, In c sweep_ri18 -> ok18 c = true.
 Proof. apply forallb_forall. exact sweep_ri_short. Qed.
 Print Assumptions C18_reg_imm_shortest.
 
@@ -22,3 +22,11 @@ Print Assumptions C18_stack_shortest.
 Example C18_boundary : model_bytes 16 (SMnem "ADD" [ident "BX"; num (-128)])%string = Some [131; 195; 128]
   /\ model_bytes 32 (SMnem "CMP" [ident "ESI"; num 127])%string = Some [131; 254; 127].
 Proof. split; vm_compute; reflexivity. Qed.
+
+(* outside the domain: an immediate written as an unsigned value whose low 16 bits are a sign-extended int8 keeps the
+   full-width form (81 /0 iw, 4 bytes) although 83 /0 ib (3 bytes) encodes the same instruction *)
+Theorem C18_unsigned_imm_refuted : model_bytes 16 (SMnem "ADD" [ident "CX"; num 65535])%string = Some [129; 193; 255; 255]
+  /\ ok18 (16, SMnem "ADD" [ident "CX"; num 65535])%string = false.
+Proof. split; vm_compute; reflexivity. Qed.
+Example C18_domain_size : (Datatypes.length sweep_ri, Datatypes.length sweep_ri18) = (5264%nat, 4880%nat).
+Proof. vm_compute. reflexivity. Qed.
